@@ -348,14 +348,19 @@ class SED(object):
         if self.n_ap == 1:
             return np.repeat(self.flux[0, :], len(apertures)).reshape(self.n_wav, len(apertures))
 
+        # Work with plain values in AU, since interp1d drops the units
+        sed_apertures = self.apertures.to(u.au).value
+        if isinstance(apertures, u.Quantity):
+            apertures = apertures.to(u.au).value
+
         # Create interpolating function
-        flux_interp = interp1d(self.apertures, self.flux.swapaxes(0, 1))
+        flux_interp = interp1d(sed_apertures, self.flux.swapaxes(0, 1))
 
         # If any apertures are larger than the defined max, reset to max
-        apertures[apertures > self.apertures.max()] = self.apertures.max()
+        apertures[apertures > sed_apertures.max()] = sed_apertures.max()
 
         # If any apertures are smaller than the defined min, raise Exception
-        if np.any(apertures < self.apertures.min()):
+        if np.any(apertures < sed_apertures.min()):
             raise Exception("Aperture(s) requested too small")
 
         return flux_interp(apertures)
